@@ -1,189 +1,415 @@
 (* C14 — property theorems only.  Each is closed by [exact] of a lemma proved in
    C14_Proofs.v and followed by Print Assumptions.
 
-   [reachable c sel s]: s is produced from the idle server by ANY finite sequence of atomic
+   [reachable c pol s]: s is produced from the idle server by ANY finite sequence of atomic
    steps (any scheduler, any number of requests — LSpawn adds one —, any per-request outcome:
-   success, backend error, client cancel, body too large, panic; any retry decisions; timers
-   firing at any moment at or after their deadline), for ANY selection function [sel]
-   (any policy, sound or not) and ANY max_conns / max_fails / fail_timeout. *)
+   success, backend error, client cancel, body too large, panic; any retry decisions; Select
+   interleaved atomic load by atomic load (Unhealthy, Fails, Conns of each host.Available()) with
+   everything else; compare-and-swaps of acquireConn won or lost;
+   every recorded failure's own expiry goroutine firing at any moment at or after failure time +
+   fail_timeout; the health-check worker storing any verdict at any moment), for ANY contract
+   [pol] of what Select may answer (any policy, sound or not) and ANY max_conns / max_fails /
+   fail_timeout.  No theorem below assumes anything about when timers run, except the three
+   that say so ([prompt]). *)
 Require Import V.Lib V.C14_Model V.C14_Proofs.
 Open Scope Z_scope.
 
-(* In-flight accounting is exact: under every interleaving and whatever the outcomes, Conns of a
-   backend is the number of requests currently between the increment and the deferred decrement
-   around the forward call to it. *)
+(* ===== In-flight accounting ===== *)
+(* Conns of a backend is, in every reachable state, exactly the number of requests between a
+   SUCCESSFUL acquireConn on it (the compare-and-swap that won) and the deferred release — whatever
+   else the requests do: refused acquisitions, lost compare-and-swaps, retries, failures, panics. *)
+Theorem C14_conns_is_exactly_forwarding :
+  forall c pol s h, reachable c pol s -> conns s h = cnt (is_fwd h) (threads s).
+Proof. exact conns_counts_forwarding. Qed.
+Print Assumptions C14_conns_is_exactly_forwarding.
+
 Theorem C14_conns_counts_forwarding :
-  forall c sel s h, reachable c sel s -> conns s h = cnt (is_fwd h) (threads s).
+  forall c pol s h, reachable c pol s -> conns s h = cnt (is_fwd h) (threads s).
 Proof. exact conns_counts_forwarding. Qed.
 Print Assumptions C14_conns_counts_forwarding.
 
 Theorem C14_conns_bounds :
-  forall c sel s h, reachable c sel s -> 0 <= conns s h <= Z.of_nat (length (threads s)).
+  forall c pol s h, reachable c pol s -> 0 <= conns s h <= Z.of_nat (length (threads s)).
 Proof. exact conns_bounds. Qed.
 Print Assumptions C14_conns_bounds.
 
-(* ... and returns to zero when traffic stops: no request being forwarded to h => Conns h = 0;
+(* ... and returns to zero when traffic stops: no request being forwarded to h => Conns h = 0
+   (a request in its retry loop, in Select, in the window or refused holds no slot);
    in particular when every request has completed (with whatever result). *)
 Theorem C14_conns_zero_when_none_forwarding :
-  forall c sel s h, reachable c sel s ->
+  forall c pol s h, reachable c pol s ->
   (forall p, In p (threads s) -> p <> Forwarding h) -> conns s h = 0.
 Proof. exact conns_zero_when_none_forwarding. Qed.
 Print Assumptions C14_conns_zero_when_none_forwarding.
 
 Theorem C14_conns_zero_at_quiescence :
-  forall c sel s, reachable c sel s -> forallb is_done (threads s) = true -> forall h, conns s h = 0.
+  forall c pol s, reachable c pol s -> forallb is_done (threads s) = true -> forall h, conns s h = 0.
 Proof. exact conns_zero_at_quiescence. Qed.
 Print Assumptions C14_conns_zero_at_quiescence.
 
 Example C14_conns_zero_at_quiescence_nonvacuous :
-  match run cfg_cap1 (sel_first cfg_cap1) (init 0)
-            [LSpawn; LSelect 0; LBegin 0; LFinish 0 OPanic] with
+  match run cfg_cap1 pol_any (init 0 healthy)
+            ([LSpawn] ++ sel0 0 ++ [LLoad 0; LCas 0; LFinish 0 OPanic]) with
   | Some s => forallb is_done (threads s) = true /\ conns s 0%nat = 0
   | None => False
   end.
 Proof. vm_compute. split; reflexivity. Qed.
 
-(* Failure accounting: Fails of a backend is the number of its expiry goroutines still asleep; a
-   recorded failure is never dropped before fail_timeout has elapsed; and when the goroutines
-   run on time ([prompt]: none is overdue) Fails is EXACTLY the number of failures recorded for
-   the backend less than fail_timeout ago. *)
+(* Quiescence — every request gone, every expiry goroutine run — is stable and both counters of
+   every backend are zero in it: nothing but a new request changes that. *)
+Theorem C14_quiescent_zero :
+  forall c pol ls s s', reachable c pol s -> quiescent s -> existsb is_spawn ls = false ->
+  run c pol s ls = Some s' -> quiescent s' /\ forall h, conns s' h = 0 /\ fails s' h = 0.
+Proof. exact quiescent_zero. Qed.
+Print Assumptions C14_quiescent_zero.
+
+Example C14_quiescent_zero_nonvacuous :
+  match run cfg_cap1 pol_any (init 0 healthy)
+            ([LSpawn] ++ sel0 0 ++ [LLoad 0; LCas 0; LFinish 0 OError; LRecord 0 false; LTick 10; LFire 0]) with
+  | Some s => forallb is_done (threads s) = true /\ all_fired s = true /\
+              run cfg_cap1 pol_any s [LTick 5; LHealth 0 true] <> None
+  | None => False
+  end.
+Proof. vm_compute. repeat split; try reflexivity. discriminate. Qed.
+
+(* ===== Failure accounting, with NO assumption about when the expiry goroutines run ===== *)
+(* Fails of a backend is, in every reachable state, the number of its recorded failures whose own
+   expiry event has not fired. *)
+Theorem C14_fails_counts_unexpired_failures :
+  forall c pol s h, reachable c pol s -> fails s h = pending s h.
+Proof. exact fails_counts_pending. Qed.
+Print Assumptions C14_fails_counts_unexpired_failures.
+
 Theorem C14_fails_counts_sleeping_timers :
-  forall c sel s h, reachable c sel s -> fails s h = cnt (for_host h) (timers s).
-Proof. exact fails_counts_timers. Qed.
+  forall c pol s h, reachable c pol s ->
+  fails s h = cnt (on_host h) (filter asleep (flog s)).
+Proof. exact fails_counts_sleeping. Qed.
 Print Assumptions C14_fails_counts_sleeping_timers.
 
+(* every expiry event fires fail_timeout after its failure or later — never earlier *)
+Theorem C14_expiry_not_before_fail_timeout :
+  forall c pol s f w, reachable c pol s -> In f (flog s) -> f_fired f = Some w ->
+  f_at f + c_fail_timeout c <= w <= now s.
+Proof. exact expiry_not_before_fail_timeout. Qed.
+Print Assumptions C14_expiry_not_before_fail_timeout.
+
 Theorem C14_failure_counted_at_least_fail_timeout :
-  forall c sel s h, reachable c sel s -> unexpired c s h <= fails s h.
+  forall c pol s h, reachable c pol s -> unexpired c s h <= fails s h.
 Proof. exact fails_ge_unexpired. Qed.
 Print Assumptions C14_failure_counted_at_least_fail_timeout.
 
-Theorem C14_fails_counts_unexpired :
-  forall c sel s h, reachable c sel s -> prompt s -> fails s h = unexpired c s h.
-Proof. exact fails_counts_unexpired. Qed.
-Print Assumptions C14_fails_counts_unexpired.
+(* A backend is treated as down exactly while it is marked unhealthy or has at least max_fails
+   failures whose expiry has not fired. *)
+Theorem C14_down_iff_max_fails_unexpired :
+  forall c pol s h, reachable c pol s ->
+  (down c s h = true <-> unhealthy s h = true \/ c_max_fails c <= pending s h).
+Proof. exact down_iff_pending. Qed.
+Print Assumptions C14_down_iff_max_fails_unexpired.
 
-(* A backend is treated as down exactly while it is unhealthy or has at least max_fails
-   unexpired failures. *)
-Theorem C14_down_iff_maxfails :
-  forall c sel s h, reachable c sel s -> prompt s ->
-  (down c s h = true <-> c_unhealthy c h = true \/ c_max_fails c <= unexpired c s h).
-Proof. exact down_iff_maxfails. Qed.
-Print Assumptions C14_down_iff_maxfails.
-
-(* without the timeliness assumption one direction survives: never up while max_fails failures are unexpired *)
 Theorem C14_down_while_maxfails_unexpired :
-  forall c sel s h, reachable c sel s ->
-  c_unhealthy c h = true \/ c_max_fails c <= unexpired c s h -> down c s h = true.
+  forall c pol s h, reachable c pol s ->
+  unhealthy s h = true \/ c_max_fails c <= unexpired c s h -> down c s h = true.
 Proof. exact down_while_maxfails_unexpired. Qed.
 Print Assumptions C14_down_while_maxfails_unexpired.
 
-Example C14_down_iff_maxfails_nonvacuous :
-  match run cfg_cap1 (sel_first cfg_cap1) (init 0)
-            [LSpawn; LSelect 0; LBegin 0; LFinish 0 OError; LRecord 0 true; LTick 9] with
-  | Some s => promptb s = true /\ unexpired cfg_cap1 s 0%nat = 1 /\ down cfg_cap1 s 0%nat = true
-  | None => False
-  end.
-Proof. vm_compute. repeat split; reflexivity. Qed.
+(* The fail count returns to zero: whenever every expiry event of h has fired, Fails h = 0. *)
+Theorem C14_fails_returns_to_zero :
+  forall c pol s h, reachable c pol s ->
+  (forall f, In f (flog s) -> f_host f = h -> f_fired f <> None) -> fails s h = 0.
+Proof. exact fails_zero_when_all_fired. Qed.
+Print Assumptions C14_fails_returns_to_zero.
 
-(* The fail count also returns to zero: once every failure of h is older than fail_timeout
-   (and the goroutines ran on time) Fails h = 0; with fail_timeout <= 0 nothing is ever counted
-   and a healthy backend is never down; and from every reachable state letting time pass and
-   the sleeping goroutines run brings every Fails to zero without touching Conns. *)
-Theorem C14_fails_zero_when_all_expired :
-  forall c sel s h, reachable c sel s -> prompt s ->
-  (forall e, In e (flog s) -> fst e = h -> snd e + c_fail_timeout c <= now s) -> fails s h = 0.
-Proof. exact fails_zero_when_all_expired. Qed.
-Print Assumptions C14_fails_zero_when_all_expired.
-
-Theorem C14_fails_nonneg :
-  forall c sel s h, reachable c sel s -> 0 <= fails s h.
-Proof. exact fails_nonneg. Qed.
-Print Assumptions C14_fails_nonneg.
-
-Theorem C14_no_counting_when_fail_timeout_off :
-  forall c sel s h, reachable c sel s -> c_fail_timeout c <= 0 -> fails s h = 0.
-Proof. exact no_counting_when_disabled. Qed.
-Print Assumptions C14_no_counting_when_fail_timeout_off.
-
-Theorem C14_never_down_when_fail_timeout_off :
-  forall c sel s h, reachable c sel s -> c_fail_timeout c <= 0 -> 1 <= c_max_fails c ->
-  down c s h = c_unhealthy c h.
-Proof. exact never_down_when_disabled. Qed.
-Print Assumptions C14_never_down_when_fail_timeout_off.
-
+(* ... and that always happens: from every reachable state letting time pass and the sleeping
+   goroutines run brings every Fails to zero without touching Conns. *)
 Theorem C14_fails_return_to_zero :
-  forall c sel s, reachable c sel s ->
-  exists ls s', run c sel s ls = Some s' /\ reachable c sel s' /\
+  forall c pol s, reachable c pol s ->
+  exists ls s', run c pol s ls = Some s' /\ reachable c pol s' /\
                 (forall h, fails s' h = 0) /\ threads s' = threads s /\ conns s' = conns s.
 Proof. exact fails_drain. Qed.
 Print Assumptions C14_fails_return_to_zero.
 
-(* The cap.  Under EVERY schedule, for EVERY selection function (sound or not) and any number of
-   requests, Conns of a backend never exceeds max_conns — and therefore neither does the number
-   of requests being forwarded to it: acquireConn increments Conns only in the atomic step that
-   also sees the host below the cap.  (F-C14-1, fixed: the increment used to be unconditional, and
-   the schedule spawn, spawn, select 0, select 1, begin 0, begin 1 gave Conns = 2 with max_conns 1.) *)
+Theorem C14_fails_nonneg :
+  forall c pol s h, reachable c pol s -> 0 <= fails s h.
+Proof. exact fails_nonneg. Qed.
+Print Assumptions C14_fails_nonneg.
+
+Theorem C14_no_counting_when_fail_timeout_off :
+  forall c pol s h, reachable c pol s -> c_fail_timeout c <= 0 -> fails s h = 0.
+Proof. exact no_counting_when_disabled. Qed.
+Print Assumptions C14_no_counting_when_fail_timeout_off.
+
+Theorem C14_never_down_when_fail_timeout_off :
+  forall c pol s h, reachable c pol s -> c_fail_timeout c <= 0 -> 1 <= c_max_fails c ->
+  down c s h = unhealthy s h.
+Proof. exact never_down_when_disabled. Qed.
+Print Assumptions C14_never_down_when_fail_timeout_off.
+
+(* --- why the seeded changes are wrong --- *)
+(* A failure is recorded in EVERY state — also when the host is already down (by max_fails or by
+   the health check): Fails +1 and a new expiry event of its own.  (C14-m2 / C14-m5 skip the
+   record when Down(): their Fails is below [pending].) *)
+Theorem C14_failure_recorded_even_when_down :
+  forall c pol s t h again s',
+  nth_error (threads s) t = Some (Failed h) -> 0 < c_fail_timeout c ->
+  step c pol s (LRecord t again) = Some s' ->
+  fails s' h = fails s h + 1 /\
+  flog s' = flog s ++ [{| f_host := h; f_at := now s; f_fired := None |}] /\
+  now s' = now s /\ nth_error (threads s') t = Some (retry_pc again).
+Proof. exact failure_recorded_in_every_state. Qed.
+Print Assumptions C14_failure_recorded_even_when_down.
+
+(* the host is down when the second failure arrives, and it is recorded: Fails = 2 *)
+Example C14_failure_recorded_even_when_down_nonvacuous :
+  match run cfg_free pol_any (init 0 healthy) sched_two_failures with
+  | Some s => nth_error (threads s) 1 = Some (Failed 0) /\ down cfg_free s 0%nat = true /\
+              match step cfg_free pol_any s (LRecord 1 false) with
+              | Some s' => fails s' 0%nat = 2 /\
+                           (* ... and keeps the host down after the first failure has expired *)
+                           match run cfg_free pol_any s' [LTick 5; LFire 0] with
+                           | Some s2 => now s2 = 11 /\ fails s2 0%nat = 1 /\ down cfg_free s2 0%nat = true
+                           | None => False
+                           end
+              | None => False
+              end
+  | None => False
+  end.
+Proof. vm_compute. repeat split; reflexivity. Qed.
+
+(* ... and it is counted until fail_timeout has passed since IT was recorded, whatever happens in
+   between: with max_fails 1 the host stays down for that long — a failure that arrives while the
+   host is down extends the down window. *)
+Theorem C14_failure_counted_for_fail_timeout :
+  forall c pol s t h again s1 ls s2,
+  reachable c pol s -> nth_error (threads s) t = Some (Failed h) -> 0 < c_fail_timeout c ->
+  step c pol s (LRecord t again) = Some s1 -> run c pol s1 ls = Some s2 ->
+  now s2 < now s + c_fail_timeout c -> 1 <= fails s2 h.
+Proof. exact failure_counted_for_fail_timeout. Qed.
+Print Assumptions C14_failure_counted_for_fail_timeout.
+
+Theorem C14_late_failure_extends_down_window :
+  forall c pol s t h again s1 ls s2,
+  reachable c pol s -> nth_error (threads s) t = Some (Failed h) -> 0 < c_fail_timeout c ->
+  step c pol s (LRecord t again) = Some s1 -> run c pol s1 ls = Some s2 ->
+  now s2 < now s + c_fail_timeout c -> c_max_fails c <= 1 -> down c s2 h = true.
+Proof. exact failure_extends_down_window. Qed.
+Print Assumptions C14_late_failure_extends_down_window.
+
+(* One expiry event undoes exactly its own failure: one decrement on that host, every other
+   recorded failure (and every other counter) untouched.  (C14-m4 lets one timer per burst clear
+   the whole count.) *)
+Theorem C14_expiry_clears_only_its_own_failure :
+  forall c pol s k s', step c pol s (LFire k) = Some s' ->
+  exists f, nth_error (flog s) k = Some f /\ f_fired f = None /\ f_at f + c_fail_timeout c <= now s /\
+            fails s' (f_host f) = fails s (f_host f) - 1 /\
+            (forall h, h <> f_host f -> fails s' h = fails s h) /\
+            flog s' = set_nth (flog s) k (fire f (now s)) /\
+            (forall j, j <> k -> nth_error (flog s') j = nth_error (flog s) j) /\
+            conns s' = conns s /\ unhealthy s' = unhealthy s /\ threads s' = threads s.
+Proof. exact expiry_clears_only_its_own_failure. Qed.
+Print Assumptions C14_expiry_clears_only_its_own_failure.
+
+(* --- the same with timers assumed prompt: Fails is then also the number of failures younger than
+   fail_timeout on the clock --- *)
+Theorem C14_fails_counts_unexpired :
+  forall c pol s h, reachable c pol s -> prompt c s -> fails s h = unexpired c s h.
+Proof. exact fails_counts_unexpired. Qed.
+Print Assumptions C14_fails_counts_unexpired.
+
+Theorem C14_down_iff_maxfails :
+  forall c pol s h, reachable c pol s -> prompt c s ->
+  (down c s h = true <-> unhealthy s h = true \/ c_max_fails c <= unexpired c s h).
+Proof. exact down_iff_maxfails. Qed.
+Print Assumptions C14_down_iff_maxfails.
+
+Example C14_down_iff_maxfails_nonvacuous :
+  match run cfg_cap1 pol_any (init 0 healthy)
+            ([LSpawn] ++ sel0 0 ++ [LLoad 0; LCas 0; LFinish 0 OError; LRecord 0 true; LTick 9]) with
+  | Some s => promptb cfg_cap1 s = true /\ unexpired cfg_cap1 s 0%nat = 1 /\ down cfg_cap1 s 0%nat = true
+  | None => False
+  end.
+Proof. vm_compute. repeat split; reflexivity. Qed.
+
+(* ... and with timers late by less than delta: Fails lies between the failures younger than
+   fail_timeout and those younger than fail_timeout + delta — lateness can only keep a backend down
+   longer, by at most delta. *)
+Theorem C14_fails_bounds_under_late_timers :
+  forall c pol s h delta, reachable c pol s -> late_by c delta s ->
+  unexpired c s h <= fails s h <=
+  cnt (fun f => on_host h f && (now s <? f_at f + c_fail_timeout c + delta)) (flog s).
+Proof. exact fails_bounds_under_late_timers. Qed.
+Print Assumptions C14_fails_bounds_under_late_timers.
+
+Example C14_fails_bounds_under_late_timers_nonvacuous :
+  match run cfg_cap1 pol_any (init 0 healthy)
+            ([LSpawn] ++ sel0 0 ++ [LLoad 0; LCas 0; LFinish 0 OError; LRecord 0 true; LTick 12]) with
+  | Some s => promptb cfg_cap1 s = false /\ unexpired cfg_cap1 s 0%nat = 0 /\ fails s 0%nat = 1 /\
+              forallb (fun f => negb (asleep f) || (now s <? f_at f + 10 + 3)) (flog s) = true
+  | None => False
+  end.
+Proof. vm_compute. repeat split; reflexivity. Qed.
+
+Theorem C14_fails_zero_when_all_expired :
+  forall c pol s h, reachable c pol s -> prompt c s ->
+  (forall f, In f (flog s) -> f_host f = h -> f_at f + c_fail_timeout c <= now s) -> fails s h = 0.
+Proof. exact fails_zero_when_all_expired. Qed.
+Print Assumptions C14_fails_zero_when_all_expired.
+
+(* ===== The cap, and lost select/acquire races ===== *)
+(* Under EVERY schedule, for EVERY Select contract (sound or not) and any number of requests, Conns
+   of a backend never exceeds max_conns — and therefore neither does the number of requests being
+   forwarded to it: the compare-and-swap of acquireConn only wins against the value that was loaded,
+   and only values below the cap are swapped.  (F-C14-1, fixed: the increment used to be
+   unconditional.) *)
 Theorem C14_conns_le_max :
-  forall c sel s h, 0 < c_max_conns c -> reachable c sel s -> conns s h <= c_max_conns c.
+  forall c pol s h, 0 < c_max_conns c -> reachable c pol s -> conns s h <= c_max_conns c.
 Proof. exact conns_le_max. Qed.
 Print Assumptions C14_conns_le_max.
 
 Theorem C14_forwarding_le_max :
-  forall c sel s h, 0 < c_max_conns c -> reachable c sel s -> cnt (is_fwd h) (threads s) <= c_max_conns c.
+  forall c pol s h, 0 < c_max_conns c -> reachable c pol s -> cnt (is_fwd h) (threads s) <= c_max_conns c.
 Proof. exact forwarding_le_max. Qed.
 Print Assumptions C14_forwarding_le_max.
 
+Theorem C14_acquiring_below_cap :
+  forall c pol s t h n, reachable c pol s -> nth_error (threads s) t = Some (Acquiring h n) ->
+  0 < c_max_conns c -> n < c_max_conns c.
+Proof. exact acquiring_below_cap. Qed.
+Print Assumptions C14_acquiring_below_cap.
+
 (* the schedule that used to overshoot: the second request finds the host full and is not counted *)
 Example C14_conns_le_max_nonvacuous :
-  match run cfg_cap1 (sel_first cfg_cap1) (init 0) sched_window with
+  match run cfg_cap1 pol_any (init 0 healthy) sched_window with
   | Some s => conns s 0%nat = 1 /\ nth_error (threads s) 0 = Some (Forwarding 0) /\
               nth_error (threads s) 1 = Some (Selected None)
   | None => False
   end.
 Proof. vm_compute. repeat split; reflexivity. Qed.
 
-(* Leaving the window: a request is forwarded to the host it holds exactly when that host is not
-   full at that instant (and is then counted); otherwise nothing is counted and the request takes
-   the no-host path (retry within try_duration, or 502). *)
+(* A refused acquisition and a lost compare-and-swap count nothing: Conns is untouched and the
+   request goes to the no-host path / loads again.  (C14-m1 / C14-m6 add first and check afterwards
+   without taking the addition back: the slot of a refused request is never released.) *)
+Theorem C14_refused_acquire_counts_nothing :
+  forall c pol s t h s',
+  nth_error (threads s) t = Some (Selected (Some h)) -> step c pol s (LLoad t) = Some s' ->
+  conns s' = conns s /\ fails s' = fails s /\
+  (full c s h = true -> nth_error (threads s') t = Some (Selected None)) /\
+  (full c s h = false -> nth_error (threads s') t = Some (Acquiring h (conns s h))).
+Proof. exact load_refused_or_loaded. Qed.
+Print Assumptions C14_refused_acquire_counts_nothing.
+
+Theorem C14_cas_won_or_lost :
+  forall c pol s t h n s',
+  nth_error (threads s) t = Some (Acquiring h n) -> step c pol s (LCas t) = Some s' ->
+  (conns s h = n -> nth_error (threads s') t = Some (Forwarding h) /\ conns s' h = conns s h + 1 /\
+                    forall h', h' <> h -> conns s' h' = conns s h') /\
+  (conns s h <> n -> nth_error (threads s') t = Some (Selected (Some h)) /\ conns s' = conns s).
+Proof. exact cas_won_or_lost. Qed.
+Print Assumptions C14_cas_won_or_lost.
+
+(* both requests load 0; the first swap wins, the second is lost, counts nothing, and the reload refuses *)
+Example C14_cas_won_or_lost_nonvacuous :
+  match run cfg_cap1 pol_any (init 0 healthy) sched_lost_cas with
+  | Some s => conns s 0%nat = 1 /\ nth_error (threads s) 0 = Some (Forwarding 0) /\
+              nth_error (threads s) 1 = Some (Selected None)
+  | None => False
+  end.
+Proof. vm_compute. repeat split; reflexivity. Qed.
+
+(* Leaving the window with nothing else moving: a request is forwarded to the host it holds exactly
+   when that host is not full at that instant (and is then counted); otherwise nothing is counted
+   and the request takes the no-host path (retry within try_duration, or 502). *)
 Theorem C14_begin_forwards_unless_full :
-  forall c sel s t h s',
-  nth_error (threads s) t = Some (Selected (Some h)) -> step c sel s (LBegin t) = Some s' ->
+  forall c pol s t h s',
+  nth_error (threads s) t = Some (Selected (Some h)) -> acquire c pol s t = Some s' ->
   (full c s h = false -> nth_error (threads s') t = Some (Forwarding h) /\ conns s' h = conns s h + 1) /\
   (full c s h = true -> nth_error (threads s') t = Some (Selected None) /\ conns s' = conns s).
 Proof. exact begin_forwards_unless_full. Qed.
 Print Assumptions C14_begin_forwards_unless_full.
 
-(* in every schedule a sound selector hands out a host only when it is neither down nor full
-   at that instant *)
+(* ===== Select against the health checker (and every other writer): a sequence of reads ===== *)
+(* For the host a Select returns, each of the three facts that make it available — not marked
+   unhealthy, below max_fails, below max_conns — held in SOME state between the entry and the return
+   of that very Select (the three loads of host.Available() are three moments). *)
+Theorem C14_select_result_available_during_select :
+  forall c pol s0 t mid h r s1,
+  pol_sound pol -> existsb (is_selstart t) mid = false ->
+  run c pol s0 (LSelStart t :: mid ++ [LSelEnd t (Some h) r]) = Some s1 ->
+  (exists l1 l2 si, mid = l1 ++ l2 /\ run c pol s0 (LSelStart t :: l1) = Some si /\ unhealthy si h = false) /\
+  (exists l1 l2 si, mid = l1 ++ l2 /\ run c pol s0 (LSelStart t :: l1) = Some si /\ fails si h < c_max_fails c) /\
+  (exists l1 l2 si, mid = l1 ++ l2 /\ run c pol s0 (LSelStart t :: l1) = Some si /\ full c si h = false).
+Proof. exact select_result_available_during. Qed.
+Print Assumptions C14_select_result_available_during_select.
+
+(* So a host marked unhealthy before the request entered Select and not declared healthy while it
+   runs is never that Select's answer: no schedule contains such a Select. *)
+Theorem C14_unhealthy_before_select_never_selected :
+  forall c pol s0 t mid h r,
+  pol_sound pol -> unhealthy s0 h = true ->
+  existsb (is_selstart t) mid = false -> existsb (is_heal h) mid = false ->
+  run c pol s0 (LSelStart t :: mid ++ [LSelEnd t (Some h) r]) = None.
+Proof. exact unhealthy_before_select_never_selected. Qed.
+Print Assumptions C14_unhealthy_before_select_never_selected.
+
+Theorem C14_standard_contract_sound : forall n, pol_sound (pol_std n).
+Proof. exact pol_std_sound. Qed.
+Print Assumptions C14_standard_contract_sound.
+
+(* the hypotheses are needed: declared healthy during the Select, the host may be answered *)
+Example C14_unhealthy_before_select_never_selected_nonvacuous :
+  let s0 := init_threads 0 (fun _ => true) 1 in
+  unhealthy s0 0%nat = true /\
+  run cfg_cap1 (pol_std 1) s0 (LSelStart 0 :: [LSelRead 0 0] ++ [LSelEnd 0 (Some 0%nat) 0%N]) = None /\
+  run cfg_cap1 (pol_std 1) s0 (LSelStart 0 :: [LSelRead 0 0] ++ [LSelEnd 0 None 0%N]) <> None /\
+  run cfg_cap1 (pol_std 1) s0
+      (LSelStart 0 :: [LHealth 0 false; LSelRead 0 0; LSelRead 0 0; LSelRead 0 0] ++ [LSelEnd 0 (Some 0%nat) 0%N]) <> None.
+Proof. vm_compute. repeat split; try reflexivity; discriminate. Qed.
+
+(* What is NOT guaranteed: the availability read is a snapshot.  A host marked unhealthy after its
+   Unhealthy flag was loaded (in the middle of host.Available(), later in the Select, or in the
+   window after it) is still answered and forwarded to. *)
+Theorem C14_selected_host_healthy_refuted :
+  exists c s h, reachable c (pol_std (c_hosts c)) s /\
+                nth_error (threads s) 0 = Some (Forwarding h) /\ unhealthy s h = true /\
+                exists s', reachable c (pol_std (c_hosts c)) s' /\
+                           nth_error (threads s') 0 = Some (Selected (Some h)) /\ down c s' h = true.
+Proof. exact selected_host_healthy_refuted. Qed.
+Print Assumptions C14_selected_host_healthy_refuted.
+
+(* the strongest true statement about the chosen host when nothing else moves during the Select *)
 Theorem C14_selected_host_available :
-  forall c sel s t s' h, sel_sound c sel -> step c sel s (LSelect t) = Some s' ->
-  nth_error (threads s') t = Some (Selected (Some h)) -> available c s h = true.
-Proof. exact select_not_full. Qed.
+  forall c pol ps s t s' h, psel_sound c ps ->
+  hexec c pol ps s (HSelect t) = Some (s', EvSel (Some h)) -> available c s h = true.
+Proof. exact select_atomic_available. Qed.
 Print Assumptions C14_selected_host_available.
 
-(* the concrete selectors (staticUpstream.Select with First / RoundRobin) are sound *)
+(* the concrete policies (First / RoundRobin) are sound *)
 Theorem C14_selectors_sound :
-  forall pol c, sel_sound c (sel_of pol c).
-Proof. exact sel_of_sound. Qed.
+  forall pol c, psel_sound c (psel_of pol c).
+Proof. exact psel_of_sound. Qed.
 Print Assumptions C14_selectors_sound.
 
-(* The states the correspondence check compares the real counters with are reachable and
-   prompt states of this transition system, so every theorem above speaks about them. *)
+Theorem C14_first_nil_only_when_none_available :
+  forall c s r, pol_first c s = (None, r) -> forall h, (h < c_hosts c)%nat -> available c s h = false.
+Proof. exact pol_first_complete. Qed.
+Print Assumptions C14_first_nil_only_when_none_available.
+
+(* ===== The states the correspondence check compares the real counters with are reachable
+   (and prompt) states of this transition system, so every theorem above speaks about them. ===== *)
 Theorem C14_harness_states_reachable :
-  forall c sel r n, reachable c sel (init_threads r n) /\ prompt (init_threads r n).
+  forall c pol r u n, reachable c pol (init_threads r u n) /\ prompt c (init_threads r u n).
 Proof. exact harness_states_reachable. Qed.
 Print Assumptions C14_harness_states_reachable.
 
 Theorem C14_harness_steps_reachable :
-  forall c sel s h s' e, reachable c sel s -> prompt s -> hexec c sel s h = Some (s', e) ->
-  reachable c sel s' /\ prompt s'.
+  forall c pol ps s h s' e, reachable c pol s -> prompt c s -> hexec c pol ps s h = Some (s', e) ->
+  reachable c pol s' /\ prompt c s'.
 Proof. exact harness_steps_reachable. Qed.
 Print Assumptions C14_harness_steps_reachable.
 
-(* max_fails: the literal is parsed with a 32-bit size, so whatever setup accepts is stored
+(* ===== max_fails: the literal is parsed with a 32-bit size, so whatever setup accepts is stored
    unchanged as the int32 threshold — the backend is down exactly from max_fails outstanding
    failures on, for every accepted value — and exactly the values 1 .. 2^31-1 are accepted
-   (F-C14-2, fixed: larger values used to be accepted and truncated). *)
+   (F-C14-2, fixed: larger values used to be accepted and truncated). ===== *)
 Theorem C14_max_fails_stored :
   forall n m, parse_max_fails n = Some m -> m = n /\ 1 <= m.
 Proof. exact max_fails_stored. Qed.
